@@ -301,6 +301,8 @@ def run(ctx, obs, prop: str):
     sel = pre + EXTRA_SELECT_SCOPE.get(prop, [])
     obs.analysed['sweep_tolerance_selections'] = tolerance_selection(ctx, obs, sel)
     obs.analysed['sweep_lost_stores'] = lost_store(ctx, obs, sel)
+    from .condensed import condensed_index
+    obs.analysed['sweep_condensed_indices'] = condensed_index(ctx, obs, sel, _in_scope)
     obs.analysed['sweep_fwd_default_sites'] = a
     obs.analysed['sweep_par_live_params'] = b
     if b == 0:
